@@ -216,6 +216,7 @@ class Executor(ExprMixin, CallMixin, LoopMixin, CompMixin, SqliteMixin, BuiltinM
         if s.value is None:
             return [st]
         v = self.eval(s.value, st)
+        v = self.apply_local_type(s.target, v, st, s.value)
         self.assign(s.target, v, st)
         return self.flush(st)
 
